@@ -28,14 +28,14 @@ TECH = {
     "C03": "ILP constraint-template extraction + extensional index-filter comparison + guard dominance for user/default structure routes",
     "C04": "ILP constraint-template extraction (count ties, products, coverage equations, rules 2-5, objective, read-out)",
     "C05": "truth-table folding of extracted abssum/prod gadget constraints; typestate / must-pass-through on the CFG of the solution enumerator",
-    "C06": "CIGAR cursor-table extraction from sibling walkers vs the SAM consumes-reference/query table; eligibility-guard dominance; tuple-layout dataflow",
-    "C07": "monomial normal form of the normalised depth through reaching definitions; sibling depth-counter agreement; zero-guard dominance",
-    "C08": "per-kind strand offset table as linear forms over len(); orientation typing (rev_comp exactly once); inverse-map store symmetry; reader/writer tuple layout",
+    "C06": "per-op tables of the CIGAR walkers derived by partial evaluation of the lifted parser on one tiny read per op (plus a syntactic cursor table read off the if/elif chain) vs the SAM consumes-reference/query table; eligibility loop folded on read stubs; tuple layout; out-of-gene folding",
+    "C07": "formula of the lifted normalisation routine folded on sample depth tables (monomial, k-fold invariance, self-profile = 2.0 through the lifted profile writer); sibling depth-counter agreement table per CIGAR op; zero-guard dominance",
+    "C08": "lifted coordinate converter folded on generated variants of every kind x strand (sequence-level haplotype equality) plus a syntactic per-kind strand offset table as linear forms over len(); inverse maps and lookup sequence vs an independent reading of the alignment string; stored-notation readers; indel bridge with a recording Variant stub",
     "C10": "guard dominance for empty-stage errors; def-use expansion of the carried score formula; folded selection predicate; positional wiring of re-wrapped solutions",
     "C12": "sibling cross-check of the carried-variant set algebra in every writer; replicated-mutable-cell rule; REF/ALT derivation per kind branch",
     "C14": "interprocedural mutation-effect / alias analysis over the call graph (who may write catalogue and evidence); late-bound closure capture via symtable; hash-order taint; write-only debug store",
     "C15": "Coverage typestate dataflow (quality filter before every model read); folded quality / threshold predicates; tuple layout agreement",
-    "C16": "loader sibling agreement on indel bookkeeping; Optional-op dominance (None test before sink); folded GT arity guard; pseudo-read balance",
+    "C16": "loader/consumer agreement on indel bookkeeping; Optional-op dominance via reaching definitions and guard facts; folded GT arity guard; pseudo-read constants; evidence table of the lifted VCF record loop on 15 record kinds",
     "C17": "positional agreement of pickled / unpickled tuple; codec pairs; completeness of dumped state; suffix/marker template agreement",
     "C18": "call-graph reachability of the single typed update from every route; folding of the conversion branch over the documented spelling table; precedence and sibling-parser agreement",
     "C19": "guard dominance on statement CFGs pruned by route assumptions; lifted guards folded over an enumerated depth grid; newline pairing as a must-pass-through rule",
@@ -66,11 +66,14 @@ def main():
             "engine": "sa",
             "level_claimed": {
                 "category": "other",
-                "text": "Static analysis of the current source (AST, statement CFG with dominators, def-use expansion, "
-                        "finite-domain folding of lifted guards/gadgets). Every rule instance is an obligation "
-                        "discharged on every run; the rules decide a named structural part of the property that is a "
-                        "necessary condition of the behaviour -- they hold for every input because they do not mention "
-                        "one -- and not the numerical behaviour itself. " + m.EXPLANATION,
+                "text": "Static analysis of the current source: AST, statement CFG with dominators and route pruning, reaching "
+                        "definitions, effect/alias summaries, linear normal forms of model templates, and partial "
+                        "evaluation (folding) of lifted fragments in the checker's own interpreter over enumerated sample "
+                        "domains -- nothing of the repository is imported or executed. Every rule instance is an obligation "
+                        "discharged on every run. The rules decide a named structural part of the property that is a "
+                        "necessary condition of the behaviour: dominance/effect/typestate/template rules hold for every "
+                        "input because they do not mention one; folded tables hold on the enumerated domain stated in the "
+                        "evidence. Neither decides a solver optimum or the equality of two runs. " + m.EXPLANATION,
                 "design_ref": f"DESIGN.md section 3, {pid}",
             },
             "level_note": "Trusted base: Python's ast parser; the rule/spec tables in checks/" + pid.lower() +
